@@ -34,6 +34,14 @@
       is a function of the bytes of the primary input, it depends on the command line and the
       secondary inputs only through the payload tuples, the digest does not collide on the
       inputs and payloads in play.
+
+  (D) about the protocol when the cache-file WRITER fails (`Gts/Model/CacheProtoFault.lean` = the
+      protocol of (B) joined with the C13 fault model): for all histories and all fault schedules
+      in which no `os.Remove` fails, every run shows the uncached bytes and status EXCEPT a run
+      whose tee `Write` fails — io.go fails the command's own write — and the invariant of (B)
+      survives (`transparent_under_faults_partial`, `no_bad_entry_under_faults_partial`); with a
+      failing `os.Remove` both are refuted by a two-run history (`…_full_refuted`), which the
+      harness replays on the binary.
 -/
 import Gts.Gen.Cli
 import Gts.Spec.CliTable
